@@ -149,7 +149,7 @@ META.update({
              CVOL + "One writer (input writes, synthetic writes, lru capacity changes, eviction triggers) and 1-2 readers that take clones from a "
              "master handle: a write may complete only after every earlier clone started to be dropped; after the cancellation flag a reader that "
              "checked for cancellation must not emit further events; reader results must equal the reference for the revision of their clone "
-             "(PendingWrite is the only accepted failure), and everything after the phase equals the reference of the final inputs "
+             "(accepted failures: PendingWrite, and PropagatedPanic only when the log shows a write in progress during the call, another reader's overlapping call that was itself cancelled and, for programs without cycle-recovering functions, a WillBlockOn of the failing thread), and everything after the phase equals the reference of the final inputs "
              "(provisional fixpoint memos of abandoned epochs included). OS threads only (see note).",
              CONC_NOTE, "E-os"),
     "C21": E("three-state cancellation monitor over Cancel/Call/Ret records + value oracle for the other handles",
